@@ -26,7 +26,7 @@ RULE = ("rle leg: rlencode(a, chunksize=c) for EVERY array over {0,1,2} of lengt
         "reference state (dict-sum merge, block-aggregate coarsening); big leg (thorough): three dense-upper coolers with 1450 bins "
         "(1,051,975 pixels) whose row runs straddle / start at / end at pixel row 1,000,000. Non-trivial: the transition writes a "
         "collection with >=2 pixels. Distinct by construction (state dedup by canonical reference state).")
-BOUNDS = {"quick": "hist depth 2; every table of BT(3,4,W) in two name flavours created and coarsened by 2; one 6000-contig table (integer chromosome column) through each of 7 producing routes; coarsen and zoomify with nproc=2 under every completion order of each pool batch (deviation bound 1)", "thorough": "hist depth 3 + every table of BT(3,5,W) + the three 1e6-row boundary coolers + the 6000-contig table; pool orders with deviation bound 2"}
+BOUNDS = {"quick": "hist depth 2; one 1,051,975-pixel cooler whose row run straddles record 1e6; narrow id dtypes with sorting requested; every table of BT(3,4,W) in two name flavours created and coarsened by 2; one 6000-contig table (integer chromosome column) through each of 7 producing routes; coarsen and zoomify with nproc=2 under every completion order of each pool batch (deviation bound 1)", "thorough": "hist depth 3 + every table of BT(3,5,W) + the three 1e6-row boundary coolers + the 6000-contig table; pool orders with deviation bound 2"}
 ASSUMPTIONS = ["V is written against docs/schema_v3.rst with raw h5py only", "two files with the same reference state have the same futures under the alphabet"]
 EXPECT_CLASSES = {"*": ["alltables:fixed", "alltables:variable", "manycontigs:integer-chromosome-column", "rle", "index", "op:create", "op:create-unordered", "op:merge", "op:coarsen", "op:zoomify", "op:scool", "op:load", "op:cload"]}
 
@@ -72,9 +72,12 @@ def units(tier):
     for op in ("coarsen", "zoomify"):
         for cs in (1, 2, 5):
             yield {"leg": "pool-order", "op": op, "chunksize": cs}
-    if tier == "thorough":
-        for k in range(3):
-            yield {"leg": "big", "k": k}
+    for k in (range(3) if tier == "thorough" else (0,)):
+        yield {"leg": "big", "k": k}
+    # narrow bin-id dtypes on tables just large enough that bin1*n_bins+bin2 leaves the dtype, chunks with rows in decreasing order
+    # and sorting requested, through the one-pass and the two-pass route
+    for dt, n in (("int8", 13), ("uint8", 17), ("int16", 190), ("uint16", 260)):
+        yield {"leg": "narrowids", "dtype": dt, "n": n}
 
 
 # ---- function level ------------------------------------------------------------------------------
@@ -465,6 +468,41 @@ def _alltables(R, unit, only):
         scratch.rm(p)
 
 
+def _narrowids(R, unit, only):
+    import cooler
+    dt, n = unit["dtype"], unit["n"]
+    bins = [("chr2", i * 3, (i + 1) * 3) for i in range(n - 2)] + [("chr10", 0, 3), ("chr10", 3, 5)]
+    cells = sorted({(0, 0), (0, 1), (0, n - 1), (1, 2), (1, n - 2), (n // 2, n // 2), (n // 2, n - 1), (n - 3, n - 2), (n - 2, n - 2), (n - 2, n - 1), (n - 1, n - 1)})
+    R.add("states")
+    R.add("traces")
+    for route in ("ordered", "unordered"):
+        inner = {"dtype": dt, "n": n, "route": route}
+        if only is not None and only != inner:
+            continue
+        R.ev(1, 1)
+        R.add("transitions")
+        R.cls("narrowids")
+        keys = cells[::-1]
+        h = len(keys) // 2
+        d = {"bin1_id": np.array([k[0] for k in keys], dtype=dt), "bin2_id": np.array([k[1] for k in keys], dtype=dt), "count": np.arange(1, len(keys) + 1, dtype=np.int32)}
+        lo, hi = pd.DataFrame({c: v[h:] for c, v in d.items()}), pd.DataFrame({c: v[:h] for c, v in d.items()})
+        p = scratch.fresh()
+        try:
+            try:
+                if route == "ordered":
+                    cooler.create_cooler(p, build.bins_df(bins), iter([lo, hi]), ordered=True, ensure_sorted=True)
+                else:
+                    cooler.create_cooler(p, build.bins_df(bins), iter([hi, lo]), ordered=False, ensure_sorted=True, mergebuf=2)
+            except Exception as e:
+                R.mismatch("operation-raises:" + type(e).__name__, inner, f"{e!s:.200}")
+                continue
+            v = h5ref.validate(p, "/")
+            if v:
+                R.mismatch("V:" + v[0].split(":")[1], inner, f"{v}")
+        finally:
+            scratch.rm(p)
+
+
 def _big(R, k, only):
     """dense upper matrix on 1450 bins: 1,051,975 pixels; pixel row 1,000,000 falls inside the run of one bin1 value. The value
     layout is shifted so that a run straddles / starts at / ends at row 1e6."""
@@ -677,6 +715,8 @@ def run(unit, R, tier, only=None):
         _pool_order(R, unit, tier, only)
     elif leg == "seqtables":
         _seqtables(R, unit["perm"], only)
+    elif leg == "narrowids":
+        _narrowids(R, unit, only)
     elif leg == "alltables":
         _alltables(R, unit, only)
     else:
